@@ -13,6 +13,8 @@ def body(start, end):
     txt = m[m.index(start):m.index(end)]
     i = txt.index("    | S f =>\n") + len("    | S f =>\n")
     b = txt[i:].rstrip()
+    if b.endswith("end."):
+        b = b[:-1]
     assert b.endswith("end")
     return b[:-3].rstrip()
 
@@ -20,7 +22,9 @@ def body(start, end):
 for name, sig, start, end in (
         ("expand_T_S", "f stk expand_all args : expand_T (S f) stk expand_all args =", "  with expand_T (fuel : nat)",
          "  (* the argument dictionary of a template call *)"),
-        ("expand_pf_S", "f stk c fn args : expand_pf (S f) stk c fn args =", "  with expand_pf (fuel : nat)", "  with switch_loop (fuel : nat)")):
+        ("expand_pf_S", "f stk c fn args : expand_pf (S f) stk c fn args =", "  with expand_pf (fuel : nat)", "  with switch_loop (fuel : nat)"),
+        ("switch_loop_S", "f stk val cases match_next next_default defval lastv :\n    switch_loop (S f) stk val cases match_next next_default defval lastv =",
+         "  with switch_loop (fuel : nat)", "End Expander.")):
     pat = re.compile(r"(  Lemma %s %s\n).*?(\.\n  Proof\. reflexivity\. Qed\.)" % (name, re.escape(sig)), re.S)
     assert pat.search(s), name
     s = pat.sub(lambda mm: mm.group(1) + body(start, end) + mm.group(2), s, count=1)
